@@ -300,6 +300,17 @@ def builders(model):
                     lambda I, S, m=m, pm=pm, ax=ax: inst(
                         I, 'PartialDerivative', D(), ax, method=m,
                         pad_mode=pm))
+        # short axes: with two (three) points the rows next to the boundary
+        # *are* the boundary rows of the other side (the aliasing corrections
+        # of finite_diff)
+        for pm in PADS:
+            for n in (2, 3):
+                if n == 2 and pm.startswith('order2'):
+                    continue      # documented minimum of three points
+                B['PartialDerivative[%s,%s,axis of %d points]' % (
+                    m, pm, n)] = lambda I, S, m=m, pm=pm, n=n: inst(
+                        I, 'PartialDerivative', D(shape=(n, 2)), 0, method=m,
+                        pad_mode=pm)
         for pm in ('constant', 'periodic', 'symmetric', 'order0', 'order1',
                    'order2'):
             B['Gradient[%s,%s]' % (m, pm)] = lambda I, S, m=m, pm=pm: inst(
